@@ -15,7 +15,7 @@ INTO_ITER = "core::iter::traits::collect::IntoIterator::into_iter"
 NEXT = "core::iter::traits::iterator::Iterator::next"
 
 
-def taint_from(fn, seeds):
+def taint_from(fn, seeds, through_bin=False):
     """Forward may-flow of a value through moves, refs, aggregates, payload reads, collections
     (Vec::push / into_iter / next) -- enough to follow a JoinHandle or a CopyHandle."""
     du = defuse(fn)
@@ -40,6 +40,9 @@ def taint_from(fn, seeds):
                             tgt = s2.node["rv"]["pl"]["l"]
                 elif (o in (INTO_ITER, NEXT, "core::ops::deref::Deref::deref", "core::ops::deref::DerefMut::deref_mut",
                             "alloc::sync::Arc::<T>::new", "core::clone::Clone::clone", "core::ops::try_trait::Try::branch",
+                            "alloc::boxed::Box::<T>::new", "alloc::boxed::box_new", "alloc::slice::<impl [T]>::into_vec",
+                            "alloc::boxed::box_assume_init_into_vec_unsafe", "alloc::boxed::Box::<core::mem::MaybeUninit<T>, A>::assume_init",
+                            "alloc::boxed::Box::<core::mem::MaybeUninit<T>, A>::write",
                             "core::result::Result::<T, E>::and_then", "core::result::Result::<T, E>::map_err")
                       or (o or "").startswith("core::iter::traits::") or (o or "").startswith("alloc::vec::Vec::<T, A>::into_")
                       or (o or "").startswith("core::slice::<impl [T]>::iter")) and ai == 0:
@@ -48,8 +51,38 @@ def taint_from(fn, seeds):
                     tgt = n["dest"]["l"]
             elif how == "rv":
                 rv = n["rv"]
-                if rv["k"] in ("use", "ref", "cast", "agg"):
+                if rv["k"] in ("use", "ref", "cast", "agg") or (through_bin and rv["k"] in ("bin", "un")):
                     tgt = n["lhs"]["l"]
+                    pr = n["lhs"].get("p") or []
+                    if pr and pr[0] == "deref":
+                        # a write through a pointer (`vec![x]` initialises its box this way): what the pointer was
+                        # derived from now holds the value too
+                        back, seenb = [tgt], set()
+                        while back:
+                            x = back.pop()
+                            if x in seenb:
+                                continue
+                            seenb.add(x)
+                            for s3, _w3 in du.defs.get(x, []):
+                                if s3.is_term:
+                                    if callee_orig(s3.node) and s3.node["args"] and (
+                                            "as_mut_ptr" in callee_orig(s3.node) or "deref" in callee_orig(s3.node).lower()):
+                                        y = op_local(s3.node["args"][0])
+                                        if y is not None:
+                                            back.append(y)
+                                    continue
+                                r3 = s3.node["rv"]
+                                y = None
+                                if r3["k"] in ("ref", "rawptr"):
+                                    y = r3["pl"]["l"]
+                                elif r3["k"] in ("use", "cast"):
+                                    y = op_local(r3["op"])
+                                if y is not None:
+                                    back.append(y)
+                        for x in seenb:
+                            if x not in t:
+                                t.add(x)
+                                work.append(x)
             if tgt is not None and tgt not in t:
                 t.add(tgt)
                 work.append(tgt)
